@@ -19,6 +19,11 @@ Line-protocol front end of the C05 model (requests after the leading `C05` field
   render <object graph>                                → ok <Inspect()> <PrintableValue+%v> <string(x)> <interpolation> <error() / builtins.Sprintf>
                                                           <PrintableValue without the Inspect() fallback> <pre-fix error(): Interface()+%v> <noRawAddr> <cellFree>   (texts in hex)
   object graph (prefix, single spaces): <GoTypeName|pair> <address> <txt hex|-> <raw hex|-> <aux hex|-> <nkids> graph*nkids
+  marshal <sorted|range> <value tree>                  → out <JSON text hex> | err <error text hex>, then the tree's noNaN guard
+  value tree (prefix, single spaces): o <text hex> | b <error hex> | l <k> tree*k | m <k> <perm> (<key hex> tree)*k
+                                      | S <k> <perm> (<item> <o|b> <hex>)*k
+  headerValues <perm> <name hex> <khex:vhex,…>         → the values filed under the canonical header name (hex, comma-separated)
+  walkOps                                              → the operation names of the failing-element stream, comma-separated
   item := i:<int> | s:<hex> | t | f | n | d:<position of the float among the non-NaN floats> | D (NaN) | b:<byte> | y:<hex bytes>
 
 Program tokens (prefix notation, separated by single spaces):
@@ -174,6 +179,55 @@ end
 
 def hexOut (s : String) : String := toHexField (rawBytes s)
 
+def parseMembers : Nat → List String → Option (List (HKey × MR) × List String)
+  | 0, r => some ([], r)
+  | k + 1, item :: tag :: h :: r => do
+    let key ← parseKey item
+    let txt ← optHex h
+    let res ← (if tag = "o" then some (MR.out txt) else if tag = "b" then some (MR.err txt) else none)
+    let (ms, r1) ← parseMembers k r
+    pure ((key, res) :: ms, r1)
+  | _ + 1, _ => none
+
+mutual
+  def parseJ : Nat → List String → Option (JV × List String)
+    | 0, _ => none
+    | _ + 1, "o" :: h :: r => (optHex h).map fun t => (.ok t, r)
+    | _ + 1, "b" :: h :: r => (optHex h).map fun t => (.bad t, r)
+    | fuel + 1, "l" :: k :: r => do
+      let (xs, r1) ← parseJs fuel (← k.toNat?) r
+      pure (.list xs, r1)
+    | fuel + 1, "m" :: k :: perm :: r => do
+      let (es, r1) ← parseJEs fuel (← k.toNat?) r
+      pure (.map (parsePerm perm) es, r1)
+    | _ + 1, "S" :: k :: perm :: r => do
+      let (ms, r1) ← parseMembers (← k.toNat?) r
+      pure (.set (parsePerm perm) ms, r1)
+    | _ + 1, _ => none
+  def parseJs : Nat → Nat → List String → Option (JVs × List String)
+    | 0, _, _ => none
+    | _ + 1, 0, r => some (.nil, r)
+    | fuel + 1, k + 1, r => do
+      let (v, r1) ← parseJ fuel r
+      let (xs, r2) ← parseJs fuel k r1
+      pure (.cons v xs, r2)
+  def parseJEs : Nat → Nat → List String → Option (JEs × List String)
+    | 0, _, _ => none
+    | _ + 1, 0, r => some (.nil, r)
+    | fuel + 1, k + 1, h :: r => do
+      let key ← optHex h
+      let (v, r1) ← parseJ fuel r
+      let (xs, r2) ← parseJEs fuel k r1
+      pure (.cons key v xs, r2)
+    | _ + 1, _ + 1, [] => none
+end
+
+/-- Go's `http.CanonicalHeaderKey` on the stream's header names (ASCII letters, digits, `-`):
+    the first letter and every letter after a `-` in upper case, the others in lower case -/
+def canonHeader (s : String) : String :=
+  String.ofList ((s.toList.foldl (fun (acc : List Char × Bool) c =>
+    ((if acc.2 then c.toUpper else c.toLower) :: acc.1, c == '-')) ([], true)).1.reverse)
+
 def handle : List String → String
   | ["render", term] =>
     let toks := term.splitOn " "
@@ -233,6 +287,25 @@ def handle : List String → String
       let ents := (List.range l.length).zipWith (fun i (e : String × String) => (e.1, e.2, i)) l
       orDash (".".intercalate ((readDir (applyPerm (parsePerm perm) ents)).map fun e => toString e.2))
     | none => "error\tbad-hex"
+  | ["marshal", mode, term] =>
+    let toks := term.splitOn " "
+    match parseJ (toks.length + 2) toks with
+    | some (t, []) =>
+      let r := if mode = "range" then t.marshalRange else t.marshal
+      (match r with
+        | .out s => "out\t" ++ hexOut s
+        | .err e => "err\t" ++ hexOut e) ++ "\t" ++ toString t.noNaN
+    | _ => "error\tbad-tree"
+  | ["headerValues", perm, name, es] =>
+    let parse (s : String) : Option (String × String) :=
+      match s.splitOn ":" with
+      | [k, v] => do pure (← optHex k, ← optHex v)
+      | _ => none
+    match (if es = "-" then some [] else (es.splitOn ",").mapM parse), optHex name with
+    | some l, some n =>
+      orDash (",".intercalate ((headerValues canonHeader (canonHeader n) (applyPerm (parsePerm perm) l)).map hexOut))
+    | _, _ => "error\tbad-hex"
+  | ["walkOps"] => ",".intercalate (walkOps.map (·.1))
   | ["firstFailure", perm, es] =>
     let l := if es = "-" then [] else es.splitOn ","
     match firstFailure (fun (s : String) => if s = "ok" then none else some s) (applyPerm (parsePerm perm) l) with
